@@ -71,6 +71,9 @@ REGEX_TERMS = {
     'A': (r'a+', ['a', 'aa']), 'B': (r'b', ['b']), 'AB': (r'ab', ['ab']), 'C': (r'[ab]c?', ['a', 'bc']),
     'W': (r'[ab]+', ['ab', 'ba', 'a']), 'X': (r'x', ['x']), 'S': (r' x', [' x']),
     'Y': (r'(?:ab)+', ['ab', 'abab']), 'Z': (r'a?b', ['b', 'ab']),
+    # terminals that can swallow the ignorable blank on either side (the ignored text is then absorbable by the symbol
+    # before it, by the one after it, or by neither)
+    'AS': (r'a ?', ['a', 'a ']), 'SX': (r' ?x', ['x', ' x']),
 }
 PREF_SENSITIVE = {'D': (r'a|ab', ['a', 'ab']), 'L': (r'a+?', ['a', 'aa'])}   # class (c): preferred != longest
 IGNORES = {'WS': (r' +', [' ', '  ']), 'CM': (r'#[^x]*', ['#', '# a']), 'WS1': (r'\s', [' '])}
@@ -324,9 +327,20 @@ def lalr_friendly(rng, p_perturb=0.35, prios=False, n_blocks=None):
         return ['t', sorted(used & {'N', 'X'})[-1] if rng.random() < 0.5 else rng.choice(sorted(used & {'N', 'X'}))]
 
     def block(depth=0):
-        k = rng.randrange(12)
+        k = rng.randrange(13)
         if depth > 1 and k in (0, 1, 2):
             k = 3
+        if k == 12:      # nullable chain, listed top-down, every level with a non-empty alternative of its own
+            used.update('ABC')
+            n = rng.randint(3, 5)
+            names = [fresh('n') for _ in range(n)]
+            w = fresh('w')
+            marks = ['+', '*', '-', ',', ';', '=']
+            rules.append(rule(w, [alt([['t', 'A'], ['r', names[0]], ['t', 'B']])]))
+            for j, nm in enumerate(names):
+                nxt = [['r', names[j + 1]]] if j + 1 < n else []
+                rules.append(rule(nm, [alt(nxt), alt([['t', 'C'], L(marks[j])])]))
+            return w
         if k == 0:       # operator layers
             e, t, f = fresh('e'), fresh('t'), fresh('f')
             m = rng.choice(['', '?'])
